@@ -36,7 +36,7 @@ package helpers
 //@   assumed
 //@ func (*FSNodeOverDag).Commit
 //@   assumed
-//@   ensures err == nil ==> typeis(result0, "*dag.ProtoNode")
+//@   ensures err == nil ==> typeis(result0, "*dag.ProtoNode") && unbox(result0, "*dag.ProtoNode") != nil
 // recorded(n): the file size a node under construction records (sum of what AddChild was given)
 //@ ghost recorded(n *FSNodeOverDag) uint64
 //@ func (*FSNodeOverDag).FileSize
@@ -50,10 +50,13 @@ package helpers
 //@   ensures result != nil && fresh(result) && childCount(result) == 0
 //@ func (*DagBuilderHelper).Maxlinks
 //@   inline
+// a node handed around by the builders is a real node: a dag-pb node is never a nil *ProtoNode in an interface
+//@ macro realNode(x) = typeis(x, "*dag.ProtoNode") ==> unbox(x, "*dag.ProtoNode") != nil
 //@ func (*DagBuilderHelper).NewLeafDataNode
 //@   assumed
 //@   modifies exhausted(db)
 //@   ensures old(exhausted(db)) ==> exhausted(db)
+//@   ensures err == nil ==> realNode(node)
 
 // FillNodeLayer adds leaves until the node has maxlinks children or the data ends
 //@ func (*DagBuilderHelper).FillNodeLayer
@@ -72,10 +75,20 @@ package helpers
 //@ func (*DagBuilderHelper).HasFileAttributes
 //@   assumed
 //@   pure
+// the requested mode (permission bits and setuid/setgid/sticky alike) and modification time go into the
+// node's UnixFS data exactly as requested, and the re-encoded data is written back to the node
 //@ func (*DagBuilderHelper).SetFileAttributes
-//@   assumed
-//@   requires[node_can_carry_attributes] typeis(n, "*dag.ProtoNode")
+//@   prop C07
+//@   arith int
+//@   requires db != nil
+//@   requires[node_can_carry_attributes] typeis(n, "*dag.ProtoNode") && realNode(n)
+//@   modifies all
+//@   site[requested_mode_stored_as_given] call:SetMode : arg1 == db.fileMode
+//@   site[requested_mtime_stored_as_given] call:SetModTime : arg1 == db.fileModTime
+//@   site[attributes_written_back_to_the_node] call:SetData : arg0 == unbox(n, "*dag.ProtoNode") && arg1 == res("call:GetBytes#0", 0) && called("call:SetMode#0") && called("call:SetModTime#0")
+//@   ensures[stored_unless_failed] err == nil ==> called("call:SetData#0")
 //@ func (*DagBuilderHelper).NewLeafNode
 //@   assumed
+//@   ensures err == nil ==> realNode(result0)
 //@ func (*DagBuilderHelper).Add
 //@   assumed
